@@ -303,8 +303,10 @@ class ExpHooks(GslHooks):
 
     def float_to_int(self, it, node, value):
         # scaling exponent computed from norm estimates: explore small values
-        k = self.ch.pick('scaling exponent u', 4)
-        self.s_choice = k
+        # u = ceil(log2(eta/theta)) is negative whenever eta < theta (no scaling needed): both signs are explored
+        k = (0, 1, 2, 3, -1, -2)[self.ch.pick('scaling exponent u', 6)]
+        self.s_choice = max(k, 0)  # the number of halvings the algorithm defines for this u
+        self.u_choice = k
         self.f2i = (value, it.loc(node))
         return k
 
@@ -452,7 +454,7 @@ def explore_paths(db, rep, tables):
         wantV = MP('A', {j: b[j] * scale ** j for j in range(0, m + 1, 2)})
         okU = U.mp is not None and U.mp.close(wantU)
         okV = V.mp is not None and V.mp.close(wantV)
-        site = 'pade%d%s' % (m, ('/s=%d' % s) if m == 13 else '')
+        site = 'pade%d%s' % (m, ('/u=%d' % getattr(hooks, 'u_choice', s)) if m == 13 else '')
         if okU and okV:
             rep.ok('G.pade.uv')
             if m in (3, 13):
@@ -769,6 +771,46 @@ def check_estimator_guards(db, rep):
     rep.floor('C.dom.nothrow', n_guards, 3 * 5 * 3)
 
 
+def exponential_alias_unsafe(db):
+    """None if matrix_exponential(M, M) gives exp(M) on the diagonal path and on the first Pade path; else a description"""
+    from poly import apply_func
+    unit = db.unit('MatrixExp')
+    f = db.one('MatrixExp', ME + 'matrix_exponential', 2)
+    n = 3
+    hooks = ExpHooks(Choices(()), n)
+    A = hooks.new_matrix(n, n, 'A', lambda r, c: CPoly(Poly.var('dr%d' % r), Poly.var('di%d' % r)) if r == c else CPoly(0, 0))
+    A.mp = MP('A', {1: 1.0})
+    A.defined = True
+    Interp(unit, hooks).call(f, None, [A.ptr, A.ptr])
+    for r in range(n):
+        for c in range(n):
+            e = A.entries.get((r, c))
+            if r == c:
+                er = apply_func('exp', Poly.var('dr%d' % r))
+                want = CPoly(er * apply_func('cos', Poly.var('di%d' % r)), er * apply_func('sin', Poly.var('di%d' % r)))
+            else:
+                want = CPoly(0, 0)
+            if e is None or not e.equals(want):
+                return 'a diagonal matrix is mapped to %s at (%d,%d) instead of %s (the shortcut clears the output before reading the diagonal)' % (e, r, c, want)
+    hooks = ExpHooks(Choices(()), n)
+    B = hooks.new_matrix(n, n, 'A', lambda r, c: CPoly(Poly.const(1 + r + 2 * c), Poly.const(0.5 * (r - c))))
+    B.mp = MP('A', {1: 1.0})
+    B.defined = True
+    hooks2 = ExpHooks(Choices(()), n)
+    C = hooks2.new_matrix(n, n, 'A', lambda r, c: CPoly(Poly.const(1 + r + 2 * c), Poly.const(0.5 * (r - c))))
+    C.mp = MP('A', {1: 1.0})
+    C.defined = True
+    eC = hooks2.new_matrix(n, n, 'eA')
+    Interp(unit, hooks).call(f, None, [B.ptr, B.ptr])
+    Interp(unit, hooks2).call(f, None, [eC.ptr, C.ptr])
+    for r in range(n):
+        for c in range(n):
+            x, y = B.entries.get((r, c)), eC.entries.get((r, c))
+            if x is None or y is None or not x.equals(y):
+                return 'a dense matrix gives entry (%d,%d) = %s instead of %s' % (r, c, x, y)
+    return None
+
+
 def check_utransform(db, rep):
     """UTransform(v,scale) = E^dagger A E with E = exp(scale * matrix(v))"""
     unit = db.unit('SUNalg')
@@ -780,6 +822,7 @@ def check_utransform(db, rep):
         class UH(GslHooks):
             def expm(self, it, args):
                 out, inp = matrix_of(it.eval(args[0])), matrix_of(it.eval(args[1]))
+                got['aliased'] = out is inp
                 got['in'] = self.entries_of(inp)
                 out.entries = {(r, c): CPoly(Poly.var('er%d_%d' % (r, c)), Poly.var('ei%d_%d' % (r, c))) for r in range(out.n1) for c in range(out.n2)}
                 return None
@@ -810,6 +853,14 @@ def check_utransform(db, rep):
         oracle = basis.project(db, d, X)
         p = res.fields['components'].value
         ok_out = all(isinstance(p.region.cell(p.off + k).value, Poly) and p.region.cell(p.off + k).value.equals(oracle[k][0]) for k in range(d * d))
+        if got.get('aliased') and d == 2:
+            # the exponential is computed in place: only right if matrix_exponential tolerates eA == A on every path
+            why = exponential_alias_unsafe(db)
+            if why:
+                rep.fail('G.utransform', 'UTransform(v,scale)/in-place', unit.loc(f), 'the exponential is written to a matrix other than its argument (or matrix_exponential is alias-safe)',
+                         'matrix_exponential is called with the same matrix as input and output, and with aliased arguments %s' % why, f['name'])
+            else:
+                rep.ok('G.utransform')
         if ok_in and ok_out:
             rep.ok('G.utransform')
         else:
